@@ -248,6 +248,12 @@ func c20Check(s *sim, _ bool) vh.HistResult {
 						if !pd {
 							continue
 						}
+						// (the version of the predecessor on record may have failed validation after an
+						// earlier version was delivered - then the successor waits until the sender has
+						// sent the predecessor again, whatever the cleaner did)
+						if s.steps[len(s.steps)-1].States[f.Prev] == stateFailed {
+							continue
+						}
 					}
 					if !s.wasDelivered(f, lastLog) {
 						res.Viol = fmt.Sprintf("after step %d %s the harness sent exactly the parts of %s that had not been acknowledged, yet the file is not delivered: cleaning destroyed acknowledged data (retransmission needed)\n%s", i, st.Act, f.Key, s.trace())
